@@ -670,6 +670,9 @@ class Gen:
             self.emit(ind + a)
         if c.external_body or forced:
             self.emit(ind + "#[verifier::external_body]")
+        elif it.body_open is not None and not any("spinoff_prover" in a for a in attrs):
+            # every function body is verified in a solver of its own (proof isolation, see lemmas)
+            self.emit(ind + "#[verifier::spinoff_prover]")
         self.emit(ind + sig_out, info)
         clauses = list(c.clauses)
         self.emit_sig_clauses(clauses, ind + "    ", relsrc, key, c)
@@ -1242,6 +1245,10 @@ def generate(repo, cdir, vacuity, force_external=(), fallback=False):
                 txt = f.read()
             if vacuity:
                 txt = lemma_vacuity(txt, name)
+            # every lemma is proved in a solver of its own (spinoff_prover): a lemma's proof must not
+            # depend on what the solver learnt from its neighbours (this is what made proofs flip
+            # with the solver seed when lemmas were added); the attribute goes on the same line
+            txt = re.sub(r"(?m)^([ \t]*)(pub (?:broadcast )?proof fn )", r"\1#[verifier::spinoff_prover] \2", txt)
             for k, ln in enumerate(txt.split("\n")):
                 g.out.append(ln)
                 g.linemap.append({"file": "contracts/" + name, "line": k + 1})
